@@ -107,50 +107,50 @@ func reference(c Case) []byte {
 func readAs(rk kind, r *codec.Reader, tag byte) (int64, float64, []byte, error) {
 	switch rk {
 	case kBool:
-		var v bool
+		v := true // every destination starts from a non-zero value: a read must assign
 		err := r.ReadBool(&v, tag, true)
 		if v {
 			return 1, 0, nil, err
 		}
 		return 0, 0, nil, err
 	case kI8:
-		var v int8
+		v := int8(0x5A)
 		err := r.ReadInt8(&v, tag, true)
 		return int64(v), 0, nil, err
 	case kU8:
-		var v uint8
+		v := uint8(0xA5)
 		err := r.ReadUint8(&v, tag, true)
 		return int64(v), 0, nil, err
 	case kI16:
-		var v int16
+		v := int16(0x5A5A)
 		err := r.ReadInt16(&v, tag, true)
 		return int64(v), 0, nil, err
 	case kU16:
-		var v uint16
+		v := uint16(0xA5A5)
 		err := r.ReadUint16(&v, tag, true)
 		return int64(v), 0, nil, err
 	case kI32:
-		var v int32
+		v := int32(0x5A5A5A5A)
 		err := r.ReadInt32(&v, tag, true)
 		return int64(v), 0, nil, err
 	case kU32:
-		var v uint32
+		v := uint32(0xA5A5A5A5)
 		err := r.ReadUint32(&v, tag, true)
 		return int64(v), 0, nil, err
 	case kI64:
-		var v int64
+		v := int64(0x5A5A5A5A5A5A5A5A)
 		err := r.ReadInt64(&v, tag, true)
 		return v, 0, nil, err
 	case kF32:
-		var v float32
+		v := float32(12345.5)
 		err := r.ReadFloat32(&v, tag, true)
 		return int64(math.Float32bits(v)), float64(v), nil, err
 	case kF64:
-		var v float64
+		v := float64(-98765.25)
 		err := r.ReadFloat64(&v, tag, true)
 		return int64(math.Float64bits(v)), v, nil, err
 	case kStr:
-		var v string
+		v := "stale destination content"
 		err := r.ReadString(&v, tag, true)
 		return 0, 0, []byte(v), err
 	}
